@@ -204,3 +204,13 @@ also("C05", "Stages are also found inside exported wrappers that are not pipelin
 also("C09", "Stages are also found inside exported wrappers that are not pipeline stages themselves (helper frames).")
 also("C03", "Hash objects are compared by reflect.DeepEqual, maps.Equal or a module function with the checked shape of an equality predicate on two maps (length test, range, comma-ok lookup, value comparison, false on every early exit).")
 also("C13", "The cycle error may be the sentinel or a wrapper whose Is method compares with it.")
+
+# round 15 (environment, shapes of names and files) and the independent refactorings
+for _p in ("C12", "C04", "C02", "C14", "C09", "C01", "C19"):
+    also(_p, "R-C12-9: the functions that open a file or start a command in a directory named by a parameter hand that very name to the operating system - no lexical clean-up (filepath.Clean / Abs / EvalSymlinks) and no os.Lstat of it, also inside the unexported helpers the name is passed to.")
+also("C11", "R-C11-10: nothing LoadLinksForLayout hands a loaded link (or a part of it) to writes through it before the signatures are checked (A4 effects analysis).")
+also("C18", "R-C18-9: the substitution helpers append the replacer's output untouched (no clean-up of rule elements after substitution).")
+also("C20", "R-C20-11: every failing return of the command handlers carries the error of a call; the commands add no verdicts of their own (reviewed usage errors excepted).")
+also("C10", "A3.1 recognises the minimum / maximum scan over a map as order-insensitive.")
+tech("C12", "name-as-given check of file and directory parameters across helper frames")
+tech("C11", "effects analysis of the callees of the link loader")
